@@ -164,9 +164,6 @@ func (fx *fnExec) applyContract(dst *ssa.Call, ctr *FuncContract, name string, c
 	} else {
 		fx.contractsUsed[name] = true
 	}
-	for _, a := range ctr.Uses {
-		fx.useAxiom(a)
-	}
 	portableOnly := false
 	if !ctr.Extern {
 		modes := ctr.Modes
@@ -267,6 +264,19 @@ func (fx *fnExec) applyContract(dst *ssa.Call, ctr *FuncContract, name string, c
 			for _, a := range h.Assigns {
 				if a.Kind == "assign" || a.Kind == "havoc" {
 					ms.ghosts[ghostRoot(a.LHS)] = true
+				}
+			}
+		}
+		// heaps the callee provably modifies only at objects it allocated itself (ensures only_fresh_modified("P")):
+		// every object that is alive now keeps its value, and the content of not-yet-allocated memory is arbitrary in
+		// our model, so the pre-state heap term can stand for the post-state heap as well - no havoc, no frame quantifier.
+		for _, cl := range ctr.Ensures {
+			for _, pre := range freshOnlyPrefixes(cl.E) {
+				for h := range ms.heaps {
+					hh := strings.TrimSuffix(h, "*")
+					if strings.HasPrefix(hh, pre) {
+						delete(ms.heaps, h)
+					}
 				}
 			}
 		}
@@ -494,4 +504,21 @@ func (fx *fnExec) builtinCopy(dst *ssa.Call, c *ssa.CallCommon, args []SV, where
 		panic(vcErr("copy from %T", args[1]))
 	}
 	fx.setResult(dst, Sc{n, types.Typ[types.Int]})
+}
+
+// freshOnlyPrefixes: heap prefixes P for which the clause (a conjunction) states only_fresh_modified("P").
+func freshOnlyPrefixes(e Expr) []string {
+	switch x := e.(type) {
+	case EBin:
+		if x.Op == "&&" {
+			return append(freshOnlyPrefixes(x.X), freshOnlyPrefixes(x.Y)...)
+		}
+	case ECall:
+		if x.Fun == "only_fresh_modified" && len(x.Args) == 1 {
+			if s, ok := x.Args[0].(EStr); ok {
+				return []string{s.V}
+			}
+		}
+	}
+	return nil
 }
